@@ -93,7 +93,7 @@ def stage(ctx, binp, harness):
     info["scenarios_with_predicted_outcome"] = nf
     info["scenarios_with_other_outcome_than_model"] = nd
     # ---- code -> spec: seeded random scenarios of the class
-    n = 12000 if thorough else 2500
+    n = 12000 if thorough else 1500
     tf, res = harness(binp, "panics", "panics-random", ["-n", str(n)], seed=ctx.seed * 1000 + 7)
     traces.append((tf, "panics-random"))
     info["random_scenarios"] = n
